@@ -151,6 +151,21 @@ func c11KeyShapes(tier string, seed int64, idx int, scratch string) rt.CaseResul
 			b, err = db.Get(ctxBg, key+"-cm")
 			add("get-committed-on-retry", b, err)
 		}
+		// a source that has been partly consumed: the value is the rest of the stream
+		pr := bytes.NewReader(append([]byte("HEADER-16-BYTES!"), v1...))
+		pr.Seek(16, io.SeekStart)
+		add("setreader-positioned-source", nil, db.SetReader(ctxBg, key+"-pos", pr))
+		b, err = db.Get(ctxBg, key+"-pos")
+		add("get-positioned-source", b, err)
+		// the snapshot of a transaction is taken when Begin returns, not at its first operation
+		if t4, err := db.Begin(ctxBg, verif.IsoLevel(level)); err == nil {
+			add("set-after-begin-of-tx4", nil, db.Set(ctxBg, key+"-pos", seqrun.Content(tag+"-after-begin", 11)))
+			b, err = t4.Get(ctxBg, key+"-pos")
+			add("tx4-first-operation-get", b, err)
+			ks, err := t4.GetKeys(ctxBg)
+			add("tx4-getkeys", []byte(fmt.Sprint(len(ks))), err)
+			add("tx4-rollback", nil, t4.Rollback(ctxBg))
+		}
 		b, err = db.Get(ctxBg, key)
 		add("get-committed", b, err)
 		add("delete", nil, db.Delete(ctxBg, key))
